@@ -1095,7 +1095,9 @@ func edgeEntropyScore(n *Node, edges EdgeMap, self int64) float64 {
 		}
 	}
 	if total != 0 {
-		for _, e := range edges {
+		// Add the terms in a fixed order: float addition is not associative, and the
+		// iteration order of the map would make the score vary from run to run.
+		for _, e := range edges.Sort() {
 			frac := float64(abs64(e.Weight)) / float64(total)
 			score += -frac * math.Log2(frac)
 		}
